@@ -48,9 +48,40 @@ fn run_refused_begin(rt: &tokio::runtime::Runtime, out: &mut Vec<Failure>) {
     }
 }
 
+fn run_many_pending(cache: bool, rt: &tokio::runtime::Runtime, out: &mut Vec<Failure>) {
+    if let Ok(bad) = rt.block_on(akd::vx_export::c15_many_pending(cache)) {
+        if let Some(b) = bad.first() {
+            out.push(Failure {
+                clause: "transaction/Transaction.get_users_data#epoch_order".into(),
+                case: vec!["c15".into(), "manypending".into(), (cache as u8).to_string()],
+                input: format!("{} cache: committed state (epoch 1, 'm'); in ONE transaction pending states (2,'zz'), (3,'kk'), (4,'aa') of the same user; get_user_state / get_user_state_versions with 8 flags inside the transaction and after the commit", if cache { "with" } else { "without" }),
+                expected: "the same answers".into(),
+                observed: format!("{b} ({} differences)", bad.len()),
+                finding_id: None,
+            });
+        }
+    }
+}
+
+fn run_rollback(cache: bool, which: u8, rt: &tokio::runtime::Runtime, out: &mut Vec<Failure>) {
+    if let Ok(bad) = rt.block_on(akd::vx_export::c15_rollback_with_cache(cache, which)) {
+        if let Some(b) = bad.first() {
+            out.push(Failure {
+                clause: (if which == 0 { "manager/StorageManager.set#body" } else { "manager/StorageManager.batch_set#body" }).into(),
+                case: vec!["c15".into(), "rollback".into(), (cache as u8).to_string(), which.to_string()],
+                input: format!("{} cache: committed node N and epoch record 1; in a transaction {} a different node under N's key, a new node and epoch record 2; rollback; read all three", if cache { "with" } else { "without" }, if which == 0 { "set" } else { "batch_set" }),
+                expected: "the committed state: rollback discards every pending write".into(),
+                observed: format!("{b} ({} problems)", bad.len()),
+                finding_id: None,
+            });
+        }
+    }
+}
+
 pub fn search(_seed: u64, _full: bool, rt: &tokio::runtime::Runtime) -> SearchResult {
     let mut out = vec![];
     let mut n = 0;
+    for cache in [false, true] { run_many_pending(cache, rt, &mut out); n += 16; for which in 0..2u8 { run_rollback(cache, which, rt, &mut out); n += 1; } }
     for (e_db, e_t) in [(1u64, 1u64), (1, 2), (2, 1), (5, 5)] { run_user_data(e_db, e_t, rt, &mut out); n += 1; }
     run_refused_begin(rt, &mut out); n += 1;
     // well-formed pairs: (e_db, v_db) vs (e_t, v_t)
@@ -61,10 +92,15 @@ pub fn search(_seed: u64, _full: bool, rt: &tokio::runtime::Runtime) -> SearchRe
             n += 1;
         }
     }
-    SearchResult { evaluations: n, failures: out, summary: "all-states read (get_user_data) inside a transaction vs after commit incl. a pending rewrite of a committed epoch; pending writes across a refused begin; bulk versions query inside a transaction vs after commit: one user, database and pending state in every epoch/version relation, all five retrieval flags".into() }
+    SearchResult { evaluations: n, failures: out, summary: "three pending states of one user whose values do not sort like their epochs x 8 flags x {single, bulk} query inside the transaction vs after commit; rollback after set / batch_set of a rewritten node, a new node and a newer epoch record, with and without cache; all-states read (get_user_data) inside a transaction vs after commit incl. a pending rewrite of a committed epoch; pending writes across a refused begin; bulk versions query inside a transaction vs after commit: one user, database and pending state in every epoch/version relation, all five retrieval flags".into() }
 }
 
 pub fn replay(case: &[&str], rt: &tokio::runtime::Runtime) -> (bool, String) {
+    if case[0] == "manypending" || case[0] == "rollback" {
+        let mut out = vec![];
+        if case[0] == "manypending" { run_many_pending(case[1] == "1", rt, &mut out); } else { run_rollback(case[1] == "1", case[2].parse().unwrap(), rt, &mut out); }
+        return match out.first() { Some(f) => (true, format!("{}: expected {}, observed {}", f.input, f.expected, f.observed)), None => (false, "holds".into()) };
+    }
     if case[0] == "userdata" || case[0] == "refusedbegin" {
         let mut out = vec![];
         if case[0] == "userdata" { run_user_data(case[1].parse().unwrap(), case[2].parse().unwrap(), rt, &mut out); } else { run_refused_begin(rt, &mut out); }
